@@ -54,6 +54,27 @@ def run(prog, tier):
     anf.reset()
     obs, info = [], []
     obs.extend(shared)
+    # a mass object is consistent as built (its inverse mass, the scale its momenta are drawn with, its Cholesky factor belong
+    # together): outside the mass classes nothing stores into one - a new mass means a new object
+    mass_names = {k_.name for k_ in prog.subclasses("ParticleMass")} | {"ParticleMass"}
+    pokes = []
+    for ci_ in prog.classes.values():
+        if ci_.name in mass_names or not ci_.module.relpath.startswith("inference/mcmc/"):
+            continue
+        for mname_, fn_ in ci_.methods.items():
+            for st_ in ast.walk(fn_):
+                tg_ = st_.targets if isinstance(st_, ast.Assign) else [st_.target] if isinstance(st_, (ast.AugAssign, ast.AnnAssign)) else []
+                for t_ in tg_:
+                    for el_ in (t_.elts if isinstance(t_, ast.Tuple) else [t_]):
+                        b_ = el_
+                        while isinstance(b_, ast.Subscript):
+                            b_ = b_.value
+                        if isinstance(b_, ast.Attribute) and isinstance(b_.value, ast.Attribute) and b_.value.attr == "mass":
+                            pokes.append(f"{ci_.name}.{mname_} line {st_.lineno}: `{U(st_)[:70]}`")
+    obs.append(struct_ob("mass-law", f"{prog.cls('HamiltonianChain').module.name}[mass-object-frozen]", not pokes,
+                         "an attribute of a mass object is stored from outside the mass classes: " + "; ".join(pokes[:2])
+                         + " - the other attributes derived from it at construction (momentum scale, factor) keep their old values, so momenta "
+                         "are no longer drawn under the kinetic energy the accept test uses", HMC, prog.cls("HamiltonianChain").node.lineno, tier="F"))
     unroll = 3 if tier == "thorough" else 2
     ci = prog.cls("HamiltonianChain")
 
